@@ -241,3 +241,14 @@ def default_ab_algebra(ck, prog):
 def run(ck, prog):
     _run_pre_ab(ck, prog)
     default_ab_algebra(ck, prog)
+
+
+# ------------------------------------------------------------------ generic: rows/cols (outer/inner) mix-up of locally allocated buffers
+_run_pre_dimension = run
+DIMENSION_FILES = ['src/linalg/mod.rs', 'src/linalg/naive/dense_matrix.rs', 'src/linalg/nalgebra_bindings.rs', 'src/linalg/ndarray_bindings.rs']
+
+
+def run(ck, prog):
+    _run_pre_dimension(ck, prog)
+    from sa import dimension
+    dimension.run_rule(ck, prog, set(DIMENSION_FILES))
